@@ -241,3 +241,53 @@ for _pat in _TURN_PATH_MODULES:
             _k = None
         if _k:
             R.fclause("C01", "no-salted-hash-or-rng/" + _rel, "custom", _k, fn=_salted_sources)
+
+
+# ---------------------------------------------------------------- the logical clock reaches T2 unmodified
+# "same ... logical clock ... always yields identical ...": t2_semantic takes its notion of now from ctx.now and hands
+# it to the index (C11 tier-walk regions: hints['now'] == now_str) and to the recency score.  Clause: the local
+# `now_str` is bound from getattr(ctx, 'now', None) and is rebound only inside the `if not now_str:` fallback (no
+# logical clock given: wall clock, outside the property's premise).  Any other rewrite of the clock string (appending
+# a zone suffix, reformatting) can make the ISO parsers fall back to datetime.now() and is rejected here.
+def logical_clock_unmodified(cl, mod, cls, func):
+    var = "now_str"
+    parents = {}
+    for n in ast.walk(func):
+        for ch in ast.iter_child_nodes(n):
+            parents[id(ch)] = n
+    binds = []
+    for n in ast.walk(func):
+        tgts = []
+        if isinstance(n, ast.Assign):
+            tgts = n.targets
+        elif isinstance(n, (ast.AnnAssign, ast.AugAssign)):
+            tgts = [n.target]
+        if any(isinstance(t, ast.Name) and t.id == var for t in tgts):
+            binds.append(n)
+    if not binds:
+        return [result(cl["name"], "error", "anchor lost: no binding of %s in %s" % (var, func.name))]
+    bad = []
+    seen_source = False
+    for b in binds:
+        src = ast.unparse(b.value) if getattr(b, "value", None) is not None else ""
+        if src in ("getattr(ctx, 'now', None)",):
+            seen_source = True
+            continue
+        # inside `if not now_str:` ?
+        p = parents.get(id(b))
+        ok = False
+        while p is not None and p is not func:
+            if isinstance(p, ast.If) and ast.unparse(p.test) == "not %s" % var and any(b is x or any(b is y for y in ast.walk(x)) for x in p.body):
+                ok = True
+                break
+            p = parents.get(id(p))
+        if not ok:
+            bad.append("line %d: %s" % (b.lineno, ast.unparse(b)[:70]))
+    if not seen_source:
+        bad.append("no binding `%s = getattr(ctx, 'now', None)`" % var)
+    if bad:
+        return [result(cl["name"], "failed", "the logical clock string is rewritten before use: " + "; ".join(bad))]
+    return [result(cl["name"], "proved", where="%d binding(s)" % len(binds))]
+
+
+R.fclause("C01", "logical-clock/t2-now-is-ctx-now", "custom", "clematis/engine/stages/t2/core.py:t2_semantic", fn=logical_clock_unmodified)
